@@ -46,7 +46,7 @@ def mandatory_bins(tier):
     b = ["flip_in:" + f for f in FIELDS + BEC2_FIELDS]
     b += ["cut_inside_dirsize", "cut_after_signature", "cut_drops_only_trailing_zeros_of_last_payload", "cut_inside_hex_pair", "cut_inside_comments", "cut_removes_only_final_newline",
           "binary_prefix", "text_prefix", "binary_suffix", "text_suffix", "key_bit_flip_bf3", "key_bit_flip_bec2_decryptor", "key_bit_flip_bec2_rewrapped", "bf3", "bec2",
-          "bec2_ecc", "encrypted_component", "zero_components", "three_components", "payload_len_1", "payload_len_16", "payload_len_17", "damage_returns_original_content", "payload_longer_than_1024", "two_identical_payloads"]
+          "bec2_ecc", "encrypted_component", "zero_components", "three_components", "payload_len_1", "payload_len_16", "payload_len_17", "damage_returns_original_content", "payload_longer_than_1024", "two_identical_payloads", "unchecked_read_of_the_same_file_first"]
     return b
 
 
@@ -199,6 +199,17 @@ def run_authentic(ns, ctx, a, rng, full=True):
     for c in a.case.comps:
         if len(c.blob) in (1, 16, 17):
             ctx.bin("payload_len_%d" % len(c.blob))
+    # history: an earlier read of the same file (same key) with the MAC check switched OFF, e.g. by a viewer tool; the checked
+    # reads of the damaged variants below must not inherit anything from it
+    if len(a.binary) % 2 == 0:
+        try:
+            if a.kind == "bf3":
+                ns.bf3file.Bf3File.read_file(io.StringIO(a.text), False, a.key)
+            else:
+                ns.bec2file.Bec2File.read_file(io.StringIO(a.text), GB.read_encryptors(ns, a.specs), False)
+            ctx.bin("unchecked_read_of_the_same_file_first")
+        except Exception as e:
+            raise AssertionError("harness: authentic file not readable with the MAC check off: " + repr(e))
     # the authentic file itself must read back (otherwise nothing below means anything)
     if verdict(ns, ctx, a, "none", a.text, {}, changed=False) != "same":
         raise AssertionError("harness: authentic file not read back: " + a.kind)
